@@ -19,6 +19,7 @@ import (
 
 	"github.com/dtn7/dtn7-go/pkg/bpv7"
 	"github.com/dtn7/dtn7-go/pkg/cla"
+	"github.com/dtn7/dtn7-go/pkg/storage"
 )
 
 type vcSendExp struct {
@@ -83,6 +84,8 @@ type vcReplayer struct {
 	// successful transmissions of a bundle to a peer while the bundle has been in the store without interruption
 	okSent map[string]bool
 	late   bool
+	// forced interleavings of concurrent failure reports (two store updates of one record)
+	gatedSteps, gateHits int
 }
 
 // copiesOf reads the spray-and-wait copy counter of the bundle called name.
@@ -333,6 +336,25 @@ func (r *vcReplayer) run() string {
 				}
 			}
 		}
+		fails := map[string]int{}
+		for _, e := range s.Exp.Sends {
+			if !e.Ok && !e.Direct {
+				fails[e.B]++
+			}
+		}
+		gated := false
+		var gateKeys []string
+		for b, n := range fails {
+			if n >= 2 {
+				gated = true
+				id := r.w.orig[b].ID().Scrub().String()
+				gateKeys = append(gateKeys, id[:strings.LastIndex(id, "-")+1]) // without the sequence number the node may have assigned
+			}
+		}
+		if gated {
+			vcArmUpdateGate(gateKeys)
+			r.gatedSteps++
+		}
 		switch s.Act {
 		case "Submit":
 			r.accT[s.B] = [2]time.Time{t0, t0}
@@ -392,6 +414,9 @@ func (r *vcReplayer) run() string {
 		default:
 			vhEmit(vhRec{"k": "infra", "v": "unknown action " + s.Act})
 			return "infra"
+		}
+		if gated {
+			r.gateHits += vcDisarmUpdateGate(gateKeys)
 		}
 		if err != nil {
 			if strings.HasPrefix(err.Error(), "deadlock") {
@@ -714,6 +739,10 @@ func TestVerifCoreReplay(t *testing.T) {
 			r := &vcReplayer{cfg: cfg, w: w, accT: map[string][2]time.Time{}, hist: it.H, okSent: map[string]bool{}}
 			status = r.run()
 			nsteps = r.steps
+			mu.Lock()
+			st["gated_steps"] += r.gatedSteps
+			st["gate_forced_overlaps"] += r.gateHits
+			mu.Unlock()
 			w.close()
 		}
 		_ = os.RemoveAll(dir)
@@ -737,4 +766,80 @@ func TestVerifCoreReplay(t *testing.T) {
 	}
 	vhStat("histories", len(items))
 	vhDone()
+}
+
+// ---- forced overlap of two concurrent read-modify-write updates of one store record --------------------------
+// When several transmissions of one bundle fail at the same moment, each failing goroutine reads the bundle's record,
+// changes its copy and writes it back. The store's verif yield point at the entry of Update lets the harness hold the
+// first writer (which has already read) until a second writer for the same record has read as well and written: the
+// first one then writes a stale copy unless the algorithm serialises its failure reports.
+var vcGate struct {
+	mu      sync.Mutex
+	armed   map[string]int // record key prefixes (bundle ID without sequence number) whose updates are gated -> forced overlaps
+	waiting map[string]chan struct{}
+}
+
+var vcGateOnce sync.Once
+
+func vcGatePrefix(key string) string {
+	if i := strings.LastIndex(key, "-"); i >= 0 {
+		return key[:i+1]
+	}
+	return key
+}
+
+func vcArmUpdateGate(prefixes []string) {
+	vcGateOnce.Do(func() {
+		vcGate.armed = map[string]int{}
+		vcGate.waiting = map[string]chan struct{}{}
+		storage.VerifPointHook = func(point, key string) {
+			if point != "update:entry" {
+				return
+			}
+			pre := vcGatePrefix(key)
+			vcGate.mu.Lock()
+			if _, ok := vcGate.armed[pre]; !ok {
+				vcGate.mu.Unlock()
+				return
+			}
+			if ch, ok := vcGate.waiting[key]; ok {
+				// second writer for this record: let it write first, then release the one that is held
+				delete(vcGate.waiting, key)
+				vcGate.armed[pre]++
+				vcGate.mu.Unlock()
+				go func() {
+					time.Sleep(15 * time.Millisecond)
+					close(ch)
+				}()
+				return
+			}
+			ch := make(chan struct{})
+			vcGate.waiting[key] = ch
+			vcGate.mu.Unlock()
+			select {
+			case <-ch:
+			case <-time.After(60 * time.Millisecond): // nobody else updates this record now (or reports are serialised)
+				vcGate.mu.Lock()
+				if vcGate.waiting[key] == ch {
+					delete(vcGate.waiting, key)
+				}
+				vcGate.mu.Unlock()
+			}
+		}
+	})
+	vcGate.mu.Lock()
+	for _, p := range prefixes {
+		vcGate.armed[p] = 0
+	}
+	vcGate.mu.Unlock()
+}
+
+func vcDisarmUpdateGate(prefixes []string) (hits int) {
+	vcGate.mu.Lock()
+	defer vcGate.mu.Unlock()
+	for _, p := range prefixes {
+		hits += vcGate.armed[p]
+		delete(vcGate.armed, p)
+	}
+	return
 }
